@@ -269,9 +269,6 @@ func runC08(rc *RunCtx) {
 		} else if endAt < want || endAt > want+skew {
 			rc.Failf("reflection-close-time", "reflection %d (%s): server closed at %v, expected %v (timeout %v, client FIN=%v)", i, x.desc, endAt, want, T, x.fin)
 		}
-		if r.first("auth") != nil || r.count("probe") != 1 {
-			rc.Failf("reflection-reports", "reflection %d: authenticated=%v probe reports=%d", i, r.first("auth") != nil, r.count("probe"))
-		}
 	}
 	srv.Stop()
 	simrt.Quiesce()
